@@ -181,6 +181,8 @@ impl Check for C11 {
                             break;
                         }
                     }
+                } else if cut_at_cap(runs[0].ended, runs[0].answers.len(), true, rans.len()) {
+                    out.count("comparisons_skipped_answer_cap", 1);
                 } else if let Cmp::Different(why) = compare_multisets(&runs[0].answers, &rans, &uni) {
                     out.violate("M-ref", "answers of a project program differ from the reference (project = walk*)", format!("{} | real {} | reference {}", why, show_answers(&runs[0].answers), show_answers(&rans)), format!("{}", prog));
                 }
